@@ -2851,6 +2851,13 @@ def transform_compressible(items, constants, labels):
             new_items.append(item)
             continue
 
+        # the jalr of an auipc+jalr pair (call / tail) carries an offset that is
+        # relative to the auipc: it cannot be judged (or dropped) on its own
+        if getattr(item, 'is_auipc_jump', False):
+            position += item.size()
+            new_items.append(item)
+            continue
+
         # check if any set of criteria is all true for this item
         compressed = None
         for name, preds in criteria.items():
